@@ -550,6 +550,99 @@ async fn stack_case(rep: &mut Report, rng: &mut Rng, m: Mech, tr: util::Transpor
   let _ = tokio::time::timeout(Duration::from_secs(12), ctx.term()).await;
 }
 
+/// (stack, heartbeats) an encrypted link whose reader stalls for two seconds with heartbeats running: PINGs and PONGs
+/// are sealed while older sealed records are still waiting in the egress buffer (small kernel buffers, HWM 10). When
+/// the reader resumes, everything accepted must arrive - a heartbeat record that jumps the queue breaks the nonce order
+/// and kills the link.
+async fn hb_stall_case(rep: &mut Report, rng: &mut Rng, m: Option<Mech>, hb_on: &'static str) {
+  use rzmq::socket::options as opt;
+  use rzmq::SocketType;
+  use vh::oracles::{self, SendStatus, SentMsg};
+  let ctx = util::new_ctx();
+  let r = ctx.socket(SocketType::Pull).unwrap();
+  let s = ctx.socket(SocketType::Push).unwrap();
+  if let Some(m) = m {
+    let k = keys(m, rng);
+    match m {
+      Mech::Curve => {
+        r.set_option(opt::CURVE_SERVER, true).await.unwrap();
+        r.set_option_raw(opt::CURVE_SECRET_KEY, &k.srv.0).await.unwrap();
+        s.set_option_raw(opt::CURVE_SECRET_KEY, &k.cli.0).await.unwrap();
+        s.set_option_raw(opt::CURVE_SERVER_KEY, &k.srv.1).await.unwrap();
+      }
+      Mech::Noise => {
+        r.set_option(opt::NOISE_XX_ENABLED, true).await.unwrap();
+        r.set_option_raw(opt::NOISE_XX_STATIC_SECRET_KEY, &k.srv.0).await.unwrap();
+        s.set_option(opt::NOISE_XX_ENABLED, true).await.unwrap();
+        s.set_option_raw(opt::NOISE_XX_STATIC_SECRET_KEY, &k.cli.0).await.unwrap();
+        s.set_option_raw(opt::NOISE_XX_REMOTE_STATIC_PUBLIC_KEY, &k.srv.1).await.unwrap();
+      }
+    }
+  }
+  for x in [&r, &s] {
+    util::set_i32(x, opt::SNDHWM, 10).await;
+    util::set_i32(x, opt::RCVHWM, 10).await;
+    util::set_i32(x, opt::SNDBUF, 32 * 1024).await;
+    util::set_i32(x, opt::RCVBUF, 32 * 1024).await;
+  }
+  if hb_on == "reader" || hb_on == "both" {
+    util::set_i32(&r, opt::HEARTBEAT_IVL, 100).await;
+    util::set_i32(&r, opt::HEARTBEAT_TIMEOUT, 20_000).await;
+  }
+  if hb_on == "sender" || hb_on == "both" {
+    util::set_i32(&s, opt::HEARTBEAT_IVL, 100).await;
+    util::set_i32(&s, opt::HEARTBEAT_TIMEOUT, 20_000).await;
+  }
+  util::set_i32(&r, opt::RCVTIMEO, 2000).await;
+  util::set_i32(&s, opt::SNDTIMEO, 0).await;
+  let mon = s.monitor(256).await.unwrap();
+  let ep = match util::bind_fresh(&r, util::Transport::Tcp).await {
+    Ok(e) => e,
+    Err(e) => {
+      rep.inconclusive(format!("bind {e}"));
+      return;
+    }
+  };
+  let _ = s.connect(&ep).await;
+  tokio::time::sleep(Duration::from_millis(500)).await;
+  let run = (rng.next() & 0x7FFF_FFFF) as u32;
+  let mut sent: Vec<SentMsg> = vec![];
+  let t0 = Instant::now();
+  let mut seq = 0u32;
+  while t0.elapsed() < Duration::from_secs(2) {
+    let lens = vec![20_000usize];
+    let fr = oracles::build_message(run, 1, seq, u32::MAX, &lens);
+    if s.send(util::msg(fr[0].clone(), false)).await.is_ok() {
+      sent.push(SentMsg { sender: 1, seq, dest: u32::MAX, frame_lens: lens, status: SendStatus::Accepted });
+      seq += 1;
+    } else {
+      tokio::time::sleep(Duration::from_millis(5)).await;
+    }
+  }
+  let mut got: Vec<Vec<Vec<u8>>> = vec![];
+  while let Ok(mm) = r.recv_multipart().await {
+    got.push(mm.into_iter().map(|f| f.data().unwrap_or(&[]).to_vec()).collect());
+  }
+  let mut dropped = false;
+  while let Ok(Ok(ev)) = tokio::time::timeout(Duration::from_millis(20), mon.recv()).await {
+    if matches!(ev, rzmq::socket::SocketEvent::Disconnected { .. }) {
+      dropped = true;
+    }
+  }
+  let f = oracles::check_receiver(run, &sent, &got, None, true);
+  let mname = m.map(|m| format!("{:?}", m)).unwrap_or("Null".into());
+  rep.case(&("hb_stall", &mname, hb_on), true);
+  rep.count("hb_stall_messages_accepted", sent.len() as u64);
+  if !f.ok() || dropped {
+    rep.violation(
+      format!("stalled_reader_with_heartbeats_loses_accepted_messages|{}|hb={}", mname, hb_on),
+      format!("{} PUSH->PULL over tcp, heartbeats (100 ms) on {}: the reader stalled for 2 s and then read everything available: {} accepted, {} received, sender saw Disconnected: {}; {}", mname, hb_on, sent.len(), got.len(), dropped, f.kinds().join("+")),
+      json!({"mechanism": mname, "heartbeats_on": hb_on, "accepted": sent.len(), "received": got.len(), "disconnected": dropped, "findings": f.to_json()}),
+    );
+  }
+  let _ = tokio::time::timeout(Duration::from_secs(12), ctx.term()).await;
+}
+
 fn main() {
   let args = Args::parse();
   util::install_panic_watch();
@@ -567,6 +660,15 @@ fn main() {
           }
           util::guarded(&rt, stack_case(&mut rep, &mut rng, m, tr, shape, dealer));
         }
+      }
+    }
+    for m in [Some(Mech::Curve), Some(Mech::Noise), None] {
+      for hb_on in ["reader", "sender", "both"] {
+        i += 1;
+        if !args.mine(i) || (!args.thorough() && m.is_none() && hb_on != "both") {
+          continue;
+        }
+        util::guarded(&rt, hb_stall_case(&mut rep, &mut rng, m, hb_on));
       }
     }
     util::cleanup_ipc_dir();
